@@ -6,6 +6,14 @@ import os
 VERIF = os.path.dirname(os.path.dirname(os.path.abspath(__file__)))
 
 CLAIMS = {
+    "C01": dict(
+        technique="MIR edge-dominance (constraint gates), who-may-call tables, TypeId-slot type agreement, guard-neighbourhood analysis",
+        text="Static necessary conditions over all MIR paths of the five crates: every feasibility marker / InsertionSuccess is dominated by the None "
+             "edge of the complete goal.evaluate on activity and route level, only confirmed modules insert into tours, constraints read cache and "
+             "dimension slots with the type they are written with and every slot they read has a writer, every job/route removal is guarded by the "
+             "locked set. Not decided: that each constraint's arithmetic is right (feasible(P,S) itself), completeness of goal assembly.",
+        note="Assumes user relations/initial solutions consistent (documented precondition); CHA call graph; module-level allow tables with reasons.",
+        ref="DESIGN.md §5 C01"),
     "C04": dict(
         technique="type-level aliasing argument (signatures + no interior mutability + forbid(unsafe)) and MIR typestate / guard analysis",
         text="Static analysis of all MIR bodies: `parent unchanged` is decided for every operator and history as a type-level argument "
